@@ -16,23 +16,26 @@ const MODES: [&str; 6] = ["none", "at-sp", "at-sp+8", "last-word-of-stack", "bel
 #[derive(Clone, Debug)]
 pub struct Case {
     modes: [usize; 3],
-    principal: usize, // 0 dedicated region, 1 thread 0's code page, 2 address in no mapping
+    principal: usize, // 0 dedicated executable region, 1 thread 0's code page, 2 address in no mapping, 3 dedicated non-executable region
     ctx: usize,       // 0 off, 1 on: rip outside, 2 on: rip inside principal, 3 on: rip == end of principal
+    /// stack sanitising on as well (it must not influence which stacks are kept)
+    sanitize: bool,
 }
 
 impl Case {
     fn to_json(&self) -> Value {
-        json!({"modes": self.modes.iter().map(|m| MODES[*m]).collect::<Vec<_>>(), "principal": self.principal, "ctx": self.ctx})
+        json!({"modes": self.modes.iter().map(|m| MODES[*m]).collect::<Vec<_>>(), "principal": self.principal, "ctx": self.ctx, "sanitize": self.sanitize})
     }
     fn from_json(v: &Value) -> Option<Case> {
         let m: Vec<usize> = v.get("modes")?.as_array()?.iter().filter_map(|x| MODES.iter().position(|n| Some(*n) == x.as_str())).collect();
-        Some(Case { modes: [m[0], m[1], m[2]], principal: v.get("principal")?.as_u64()? as usize, ctx: v.get("ctx")?.as_u64()? as usize })
+        Some(Case { modes: [m[0], m[1], m[2]], principal: v.get("principal")?.as_u64()? as usize, ctx: v.get("ctx")?.as_u64()? as usize, sanitize: v.get("sanitize").and_then(|x| x.as_bool()).unwrap_or(false) })
     }
 }
 
 pub struct Target {
     p: Puppet,
-    region: u64, // dedicated principal region (2 pages)
+    region: u64, // dedicated principal region (2 pages, executable)
+    region_rw: u64, // a second dedicated region that is NOT executable (data mapping as principal mapping)
     sp: [u64; 3],
     hi: [u64; 3], // end of each thread's stack mapping
 }
@@ -40,6 +43,7 @@ pub struct Target {
 fn make_target() -> Target {
     let mut p = Puppet::spawn();
     let region = p.pattern(2, "hole", "rx");
+    let region_rw = p.pattern(2, "hole", "rw");
     let mut sp = [0u64; 3];
     let mut hi = [0u64; 3];
     for i in 0..3 {
@@ -65,7 +69,7 @@ fn make_target() -> Target {
     }
     // scrub the captured part of the stacks of anything that might look like a pointer into the regions
     p.quiesce();
-    Target { p, region, sp, hi }
+    Target { p, region, region_rw, sp, hi }
 }
 
 fn expected_reference(mem: &[u8], base: u64, sp: u64, low: u64, high: u64) -> bool {
@@ -86,6 +90,7 @@ pub fn run_case(t: &mut Target, c: &Case) -> Vec<(String, String)> {
     let (low, high) = match c.principal {
         0 => (t.region, t.region + 2 * 4096),
         1 => (t.p.threads[0].page, t.p.threads[0].page + 4096),
+        3 => (t.region_rw, t.region_rw + 2 * 4096),
         _ => (0x10, 0x10),
     };
     let ptr = if c.principal == 2 { t.region + 0x20 } else { low + 0x20 };
@@ -108,7 +113,7 @@ pub fn run_case(t: &mut Target, c: &Case) -> Vec<(String, String)> {
         }
     }
     let blamed = t.p.threads[1].tid;
-    let mut o = DumpOpts { skip_unref: true, principal: Some(if c.principal == 2 { 0x10 } else { low as usize + 0x40 }), blamed: Some(blamed), ..Default::default() };
+    let mut o = DumpOpts { skip_unref: true, principal: Some(if c.principal == 2 { 0x10 } else { low as usize + 0x40 }), blamed: Some(blamed), sanitize: c.sanitize, ..Default::default() };
     let ctx_rip = match c.ctx {
         1 => Some(t.p.threads[1].page + 0x10),
         2 => Some(if c.principal == 2 { t.region } else { low + 4 }),
@@ -187,12 +192,15 @@ fn cases(thorough: bool) -> Vec<Case> {
         mdv_core::lat::lat(&sizes, 2, |t| tuples.push(t.to_vec()));
     }
     for t in tuples {
-        for principal in 0..3 {
+        for principal in 0..4 {
             for ctx in 0..4 {
                 if !thorough && ctx >= 2 && t.iter().filter(|x| **x != 0).count() > 1 {
                     continue;
                 }
-                v.push(Case { modes: [t[0], t[1], t[2]], principal, ctx });
+                v.push(Case { modes: [t[0], t[1], t[2]], principal, ctx, sanitize: false });
+                if ctx < 2 {
+                    v.push(Case { modes: [t[0], t[1], t[2]], principal, ctx, sanitize: true });
+                }
             }
         }
     }
